@@ -15,6 +15,12 @@ Theorem C14_steps : forall (s e : R) (n : nat), 1 <= n ->
   (forall i, S i < n -> (nth (S i) (seq1d Rops s e n) 0 - nth i (seq1d Rops s e n) 0 = (e - s) / INR (n - 1))%R).
 Proof. exact steps_spec. Qed.
 
+(* ascending ranges are strictly increasing, descending ones strictly decreasing *)
+Theorem C14_steps_monotone : forall (s e : R) (n i j : nat), 2 <= n -> i < j ->
+  ((s < e)%R -> (steps_value Rops s e n i < steps_value Rops s e n j)%R) /\
+  ((e < s)%R -> (steps_value Rops s e n j < steps_value Rops s e n i)%R).
+Proof. exact (fun s e n i j Hn Hij => conj (fun H => steps_value_increasing s e n i j Hn H Hij) (fun H => steps_value_decreasing s e n i j Hn H Hij)). Qed.
+
 (* the code's iterator (next() until None) produces exactly value(0..n-1); for every carrier, so bit-exactly in binary64 *)
 Theorem C14_steps_collect : forall T (O : ops T) (s e : T) (n : nat),
   collect1d O s e n = seq1d O s e n /\ length (seq1d O s e n) = n.
@@ -41,6 +47,11 @@ Proof.
   exact (fun T O x0 x1 nx y0 y1 ny =>
     conj (collect2d_seq O x0 x1 nx y0 y1 ny) (conj (seq2d_length O x0 x1 nx y0 y1 ny) (seq2d_row_major O x0 x1 nx y0 y1 ny))).
 Qed.
+
+(* the point of column i, row j sits at flat index get_1d_index i j nx *)
+Theorem C14_2d_lookup : forall T (O : ops T) x0 x1 nx y0 y1 ny i j d, i < nx -> j < ny ->
+  nth (get_1d_index i j nx) (seq2d O x0 x1 nx y0 y1 ny) d = (xcoord O x0 x1 nx i, ycoord O nx y0 y1 ny j).
+Proof. exact (fun T O => seq2d_nth O). Qed.
 
 Theorem C14_2d_interleave : forall T (O : ops T) x0 x1 nx y0 y1 ny (sched : list bool), nx * ny <= length sched ->
   let out := run_sched (it2d_nxt O x0 x1 nx y0 y1 ny (fst (it2d_new nx ny))) (it2d_bck O x0 x1 nx y0 y1 ny (fst (it2d_new nx ny))) sched (snd (it2d_new nx ny)) in
@@ -143,7 +154,9 @@ Example C14_nonvacuous_spans : exists s : space R, span (fst s) = span (snd s).
 Proof. exists (mk_space 0 1 2 5 6 2). unfold span, mk_space; cbn. lra. Qed.
 
 Print Assumptions C14_steps.
+Print Assumptions C14_steps_monotone.
 Print Assumptions C14_steps_collect.
+Print Assumptions C14_2d_lookup.
 Print Assumptions C14_steps_interleave.
 Print Assumptions C14_steps_rev.
 Print Assumptions C14_2d.
